@@ -58,7 +58,8 @@ type Profile struct {
 	HostileNames bool // identifier-hostile names
 	LongNames    bool
 
-	NoClient bool // the schema is only used with server-side plugins: client-only findings do not restrict it
+	ContractStrict bool // the schema is judged against the published OpenAPI/TypeScript contract
+	NoClient       bool // the schema is only used with server-side plugins: client-only findings do not restrict it
 
 	// Avoid maps generator avoidance switches (turned on by open known findings) to the
 	// finding id; avoided draws are counted in Schema.Avoided.
@@ -645,7 +646,7 @@ func (g *gen) annotate(m *Message, fq string, c *fieldCtx) {
 	if can("nullable") && p.Optionals && want("nullable") {
 		k := g.scalarKind()
 		var ref string
-		if p.Enums && len(g.enums) > 0 && g.oneIn(5, "nullenum") {
+		if p.Enums && len(g.enums) > 0 && g.oneIn(5, "nullenum") && !g.avoid("nullable_enum_schema") {
 			k, ref = KEnum, pick(g, g.enums, "nullenumref")
 		}
 		f := addField(k, ref, Optional)
@@ -729,7 +730,7 @@ func (g *gen) annotate(m *Message, fq string, c *fieldCtx) {
 		}
 		mark("flatten")
 	}
-	if (can("oneof_disc") || can("oneof_flat")) && len(m.Oneofs) == 0 && want("oneof") {
+	if (can("oneof_disc") || can("oneof_flat")) && len(m.Oneofs) == 0 && want("oneof") && !(p.ContractStrict && g.avoid("oneof_disc_openapi_schema")) {
 		flat := can("oneof_flat") && (!can("oneof_disc") || g.bool("oneofflat"))
 		o := g.addOneof(m, fq, c, true, flat)
 		o.Discriminator = pick(g, []string{"type", "kind", "tag_name", "@type"}, "disc")
